@@ -5,7 +5,7 @@ import json, os, re, subprocess, sys
 ROOT = os.path.dirname(os.path.dirname(os.path.abspath(__file__)))
 names = [a for a in sys.argv[1:] if not a.startswith("--")] or sorted(os.listdir(os.path.join(ROOT, "seeded")))
 names = [n for n in names if os.path.isdir(os.path.join(ROOT, "seeded", n))]
-extra = {"C03-1": ["C19"], "C19-2": ["C09"], "C09-2": ["C19"], "C08-1": ["C02", "C03"], "C08-2": ["C01"], "C16-1": ["C19"], "C12-2": ["C11"], "C11-2": ["C12"], "C14-1": ["C19"], "C02-1": ["C14"]}
+extra = {"C08-3": ["C19"], "C08-4": ["C01"], "C03-3": ["C14"], "C03-4": ["C19"], "C19-3": ["C16"], "C07-3": ["C19", "C14"], "C06-3": ["C19", "C07"], "C06-4": ["C02"], "C19-4": ["C09"], "C09-4": ["C19"], "C17-4": ["C11", "C14"], "C11-3": ["C04"], "C11-4": ["C12"], "C12-4": ["C11"], "C04-4": ["C14"], "C04-3": ["C01"], "C01-4": ["C04"], "C14-4": ["C19"], "C16-3": ["C18"], "C05-4": ["C07"], "C07-4": ["C05"], "C13-3": ["C11"], "C03-1": ["C19"], "C19-2": ["C09"], "C09-2": ["C19"], "C08-1": ["C02", "C03"], "C08-2": ["C01"], "C16-1": ["C19"], "C12-2": ["C11"], "C11-2": ["C12"], "C14-1": ["C19"], "C02-1": ["C14"]}
 manifest = {c["property_id"] for c in json.load(open(os.path.join(ROOT, "MANIFEST.json")))["checks"]}
 rows = []
 for n in names:
